@@ -4,6 +4,7 @@ from . import c02
 
 ID = "C08"
 LEAN_MODULE = "Ucfg.Props.C08"
+LEVEL_TEXT = 'Theorems: a re-entered reference is an error at that point, active sets are scoped (repeated uses and diamonds are not cycles), the cache holds primitives only, FlattenedKeys stops on revisit, fuel is never a value. PARTIAL: fuel sufficiency for acyclic graphs not proved; divergence of the real code decided by stack/time limits; known finding D17.'
 CORRESPONDENCE = "Eval.{force,dynValue,resolveRef,flattenedKeysE} ~ every read API on configs created with VarExp"
 RULE = ("reference graphs over n <= 8 settings: self references, references to ancestors and descendants (a nested object "
         "referencing its parent, the parent referencing a child), chains, diamonds, repeated uses in one string, references inside "
